@@ -334,7 +334,7 @@ class Harness:
     def __init__(self, model: SrcModel, chooser=None, *, rc: Optional[Dict[str, str]] = None,
                  fc: Optional[Dict[str, Any]] = None, hints: Optional[Dict[str, Optional[str]]] = None,
                  packages: Optional[Dict[str, Optional[str]]] = None, async_keys: Tuple[str, ...] = (),
-                 gather_order=None, extra_summaries=None):
+                 gather_order=None, extra_summaries=None, data_format=None):
         summaries = dict(extra_summaries or {})
         self.it = Interp(model, chooser, summaries=summaries, ext_handlers={"inject.instance": self._inject_instance})
         install_lark_model(self.it)
@@ -354,8 +354,13 @@ class Harness:
         self.rc_eval = Obj(f"{STUB_MODULE}.StubRcEvaluator", {"stub_methods": rc_methods, "_evaluation_methods": rc_methods, "logger": logger})
         self.fc_eval = Obj(f"{STUB_MODULE}.StubFcEvaluator", {"stub_methods": fc_methods, "_evaluation_methods": fc_methods, "logger": logger})
         self.hints = Obj(f"{STUB_MODULE}.StubHintsProvider", {"table": dict(hints or {}), "logger": logger})
+        # the data that are being evaluated and the providers registered for them have one and the same format
+        self.data_format = data_format if data_format is not None else Opaque("UTILMD", truthy=True, not_none=True)
+        self.evaluatable_data = Opaque("injected:evaluatable_data", truthy=True, not_none=True)
+        it.attr_memo[("injected", "evaluatable_data")] = self.evaluatable_data
+        it.attr_memo[(self.evaluatable_data.oid, "edifact_format")] = self.data_format
         self.packages = Obj(f"{STUB_MODULE}.StubPackageResolver",
-                            {"table": dict(packages or {}), "logger": logger, "edifact_format": Opaque("UTILMD", truthy=True)})
+                            {"table": dict(packages or {}), "logger": logger, "edifact_format": self.data_format})
         self.provider = Obj(f"{STUB_MODULE}.StubTokenLogicProvider",
                             {"rc": self.rc_eval, "fc": self.fc_eval, "hints": self.hints, "packages": self.packages})
 
